@@ -17,20 +17,20 @@ def slice_loop_stage(ev, tier, seed):
 
 
 NT = "non-trivial = the specification's nodelist is non-empty; distinct = distinct REPLAY lines"
-PROPS["C01"] = make_prop("C01", [ES("C01", "C01", "nodes"), ES("C01", "C11", "nodes"), ES("C01", "C05", "nodes"), TE("C01", {"nodes", "outcome"})],
+PROPS["C01"] = make_prop("C01", [ES("C01", "C01", "nodes"), ES("C01", "C11", "nodes"), ES("C01", "C05", "nodes"), TE("C01", {"nodes", "outcome", "seg"})],
     "every (document, query) pair of universe C01 (strided by seed) driven through the evaluation machine; " + NT, COMMON_ASSUME)
 PROPS["C02"] = make_prop("C02", [ES("C02", "C01", "order"), ES("C02", "C11", "order"), TE("C02", {"order"})],
     "as C01 but the result SEQUENCE is compared; " + NT, COMMON_ASSUME)
 PROPS["C03"] = make_prop("C03", [ES("C03", "C03", "paths"), TE("C03", {"paths"})],
     "member names over a hostile alphabet reached through every route kind; each result's path compared with the spec's NormalizedPath of the node found by address, equal-paths<=>same-node, and re-query of the reported path; " + NT, COMMON_ASSUME)
-PROPS["C04"] = make_prop("C04", [ES("C04", "C04", "nodes")],
+PROPS["C04"] = make_prop("C04", [ES("C04", "C04", "nodes"), TE("C04", {"cmp"})],
     "all pairs of operand values x 6 operators x operand forms embedded as $[?lhs op rhs]; the child is selected iff the spec's Compare is true; " + NT, COMMON_ASSUME)
 PROPS["C05"] = make_prop("C05", [ES("C05", "C05", "order")],
     "logical expressions of depth <= 3 over test/comparison/nested-filter atoms applied to arrays and objects of children covering presence/absence and falsy values; selected children compared in order; " + NT, COMMON_ASSUME)
 PROPS["C10"] = make_prop("C10", [ES("C10", "C10", "nodes")],
     "regex ASTs of depth <= 2 rendered to patterns x subject strings (match and search), and length/count/value over every JSON type and NOTHING; " + NT,
     COMMON_ASSUME + ["patterns containing ^ or $ are outside the universe (RFC 9485 reads them as literals, the implementation's dialect as anchors)"])
-PROPS["C11"] = make_prop("C11", [slice_loop_stage, ES("C11", "C11", "order")],
+PROPS["C11"] = make_prop("C11", [slice_loop_stage, ES("C11", "C11", "order"), TE("C11", {"slice"})],
     "all (start,end,step) over a window around the array length plus the +-BIG abstraction of +-(2^53-1) x all lengths; all indices; also under a descendant segment; plus the loop machine SliceLoop.tla on the spec side; " + NT,
     COMMON_ASSUME + ["BIG abstraction: an integer beyond the window behaves like its saturated representative (DESIGN 3.1)"])
 PROPS["C12"] = make_prop("C12", [lambda ev, tier, seed: session_stage(ev, "C12", tier, seed), ES("C12", "C01", "entry"), ES("C12", "C05", "entry")],
